@@ -47,6 +47,8 @@ def run(chk, repo):
     chk.attempt(g3_threading, chk, op, "C07-G3")
     chk.attempt(g4, chk, op)
     chk.attempt(codec_hit, chk, repo)
+    from .codec_rules import missing_stamps
+    chk.attempt(missing_stamps, chk, repo, "C07-K9")
     chk.attempt(check_codec, chk, repo, "C07", covered_by="codec_hit", rules=tuple(f"C07-K{i}" for i in range(1, 8)))
     chk.attempt(open_protocol, chk, repo)
     chk.attempt(write_then_read, chk, repo)
